@@ -172,6 +172,16 @@ def gen_deep_prog(rng, idx):
             'steps': [['load'], ['snap']] + ([['save']] if rng.random() < 0.4 else [])}
 
 
+def gen_small_prog(rng, idx):
+    """a small document whose load records errors (unsupported input semantic, broken references),
+    with and without a mask: the material of long batches in which documents are dropped"""
+    ns = rng.choice([NS141, NS141, NS150])
+    damage = rng.choice(['unknown_semantic', 'unknown_semantic', 'unknown_semantic', 'broken_ref', 'bad_material_ref', 'none'])
+    src = {'kind': 'xml', 'xml': make_xml(rng, ns, damage, direct_texture=False), 'ns': ns, 'damage': damage}
+    mask = rng.choice([None, None, ['DaeUnsupportedError'], ['DaeError'], ['DaeBrokenRefError']])
+    return {'name': 'p%d' % idx, 'source': src, 'ignore': mask, 'steps': [['load'], ['snap']]}
+
+
 def gen_archive_prog(rng, idx):
     """a zip archive or a directory with the document and its texture: the member/file names are
     the same in every archive and directory, the texture bytes are not"""
@@ -355,6 +365,17 @@ def evaluate(progs, solo, sched_payload, res):
     fails = []
     if 'crashed' in res:
         return [{'clause': 'crash-or-hang', 'site': sched_payload['mode'], 'what': 'worker crashed or hung: ' + res['crashed'][-200:]}]
+    if sched_payload['mode'] == 'batch':
+        for n, inst in enumerate(res['instances']):
+            want = solo[inst['prog']]['steps']
+            for k, (s, w) in enumerate(zip(inst['steps'], want)):
+                if s['digest'] != w['digest']:
+                    step = progs[inst['prog']]['steps'][k]
+                    fails.append({'clause': 'differs-from-solo', 'site': 'batch:%s:%s' % (step_name(step), first_difference(w['obs'], s['obs'])),
+                                  'what': 'document number %d of a sequential batch (earlier documents dropped), step %d (%s), observed %s but %s alone'
+                                          % (n, k, step_name(step), json.dumps(s['obs'])[:160], json.dumps(w['obs'])[:160])})
+                    return fails
+        return fails
     if sched_payload['mode'] == 'sched':
         at = [0] * len(progs)
         for s in res['steps']:
@@ -440,6 +461,10 @@ def run(ctx):
                           steps=gen_steps(rng, rng.randint(2, 6))))
     for _ in range(nprog // 6):
         progs.append(gen_archive_prog(rng, len(progs)))
+    small = []
+    for _ in range(8 if quick else 16):
+        small.append(len(progs))
+        progs.append(gen_small_prog(rng, len(progs)))
     deep = []
     for _ in range(8 if quick else 24):
         deep.append(len(progs))
@@ -511,6 +536,13 @@ def run(ctx):
         pick = [a, b] + [rng.choice(usable) for _ in range(rng.choice([0, 1]))]
         payloads.append(({'mode': 'gated', 'progs': [progs[i] for i in pick], 'parked': 2, 'gate_step': [rng.choice(ks), 0],
                           'gate_where': [None, 'ignore.isinstance'], 'release': rng.choice(['fifo', 'fifo', 'lifo'])}, pick))
+    # long sequential batches in which every document is dropped before the next is loaded
+    for n in range(4 if quick else 20):
+        pool_ = [i for i in small if i in usable]
+        if not pool_:
+            break
+        order = [rng.randrange(len(pool_)) for _ in range(250 if quick else 600)]
+        payloads.append(({'mode': 'batch', 'progs': [progs[i] for i in pool_], 'order': order}, pool_))
     ndeep = 16 if quick else 120
     for n in range(ndeep):
         a = rng.choice(deep)
@@ -550,6 +582,16 @@ def run(ctx):
             dist['steps'] += len(sched_obs)
             if len(ps) >= 2 and len(set(payload['schedule'])) >= 2:
                 seen.add(core.canon_hash([[p['name'] for p in ps], payload['schedule']]))
+        elif payload['mode'] == 'batch':
+            dist['batches'] = dist.get('batches', 0) + 1
+            dist['batch_documents'] = dist.get('batch_documents', 0) + len(res['instances'])
+            insts = res['instances']
+            sched_obs = [(n, x['digest']) for n, inst in enumerate(insts) for x in inst['steps']]
+            solo_inst = [solo_d[inst['prog']] for inst in insts]
+            terms.append(c_case(len(insts), sched_obs, solo_inst, [tuple(g) for g in res['globals']], 0))
+            case_inputs.append((payload, {}))
+            dist['steps'] += len(sched_obs)
+            seen.add(core.canon_hash(['batch', payload['order'][:50]]))
         elif payload['mode'] == 'gated':
             dist['gated_overlaps'] = dist.get('gated_overlaps', 0) + 1
             dist['gated_parked'] = dist.get('gated_parked', 0) + bool(res['parked'])
